@@ -253,6 +253,28 @@ RunStream(s0, take, fuel, D) ==
                     ELSE Go(r.s, out, tks, t + 1 + r.t, f - 1)
   IN Go(s0, <<>>, <<>>, 0, fuel)
 
+(* constructor skeleton of a stream: states shown by their trail, goals omitted (what the
+   engine observer of the harness records at every iteration of Solver::next) *)
+RECURSIVE SkelL(_)
+RECURSIVE SkelS(_)
+SkelL(l) ==
+  CASE l[1] \in {"bind", "bindD"} -> <<l[1], SkelL(l[2])>>
+    [] l[1] \in {"mplus", "mplusD"} -> <<l[1], SkelL(l[2]), SkelL(l[3])>>
+    [] l[1] \in {"pause", "pauseD"} -> <<l[1], l[2].u.trail>>
+    [] l[1] = "delay" -> <<"delay", SkelS(l[2])>>
+SkelS(s) ==
+  CASE s[1] = "empty" -> <<"empty">>
+    [] s[1] = "unit" -> <<"unit", s[2].u.trail>>
+    [] s[1] = "lazy" -> <<"lazy", SkelL(s[2])>>
+    [] s[1] = "cons" -> <<"cons", s[2].u.trail, SkelL(s[3])>>
+
+(* the stream after one iteration of the loop of Solver::next *)
+AfterNext(s, fuel, D) ==
+  CASE s[1] = "empty" -> s
+    [] s[1] = "unit" -> Empty
+    [] s[1] = "cons" -> Lazy(s[3])
+    [] s[1] = "lazy" -> Step(s[2], fuel, D).s
+
 DefsOf(case) == IF "defs" \in DOMAIN case THEN case.defs ELSE [x \in {} |-> x]
 
 RunGoal(ast, take, fuel, D) ==
